@@ -5,6 +5,7 @@
 package reg
 
 import (
+	"reflect"
 	"math"
 	"sort"
 
@@ -30,6 +31,10 @@ type Cfg struct {
 	I []int     `json:"i,omitempty"`
 	F []float64 `json:"f,omitempty"`
 	S string    `json:"s,omitempty"`
+	// Via: reach the configuration the other way - construct the DEFAULT
+	// instance and assign its exported fields (anything an implementation
+	// remembered at construction time is then stale).
+	Via bool `json:"via_public_fields,omitempty"`
 }
 
 // Inst is a live indicator instance.
@@ -79,7 +84,46 @@ type Indicator struct {
 var Indicators []*Indicator
 
 // Add registers rows.
-func Add(rows ...*Indicator) { Indicators = append(Indicators, rows...) }
+func Add(rows ...*Indicator) {
+	for _, ind := range rows {
+		ind := ind
+		direct := ind.New
+		ind.New = func(c Cfg) Inst {
+			if !c.Via {
+				return direct(c)
+			}
+			c.Via = false
+			d, src := direct(ind.Default), direct(c)
+			if !assignExported(d.Obj, src.Obj) {
+				return src
+			}
+			d.Idle = src.Idle
+			if m := reflect.ValueOf(d.Obj).MethodByName("IdlePeriod"); m.IsValid() && m.Type().NumIn() == 0 && m.Type().NumOut() == 1 && m.Type().Out(0).Kind() == reflect.Int {
+				d.Idle = int(m.Call(nil)[0].Int())
+			}
+			return d
+		}
+	}
+	Indicators = append(Indicators, rows...)
+}
+
+// assignExported assigns every exported field of *src to *dst (same pointer
+// to struct type); false when the shapes do not allow it.
+func assignExported(dst, src any) bool {
+	d, s := reflect.ValueOf(dst), reflect.ValueOf(src)
+	if d.Kind() != reflect.Ptr || s.Kind() != reflect.Ptr || d.Type() != s.Type() || d.Elem().Kind() != reflect.Struct {
+		return false
+	}
+	d, s = d.Elem(), s.Elem()
+	n := 0
+	for i := 0; i < d.NumField(); i++ {
+		if d.Type().Field(i).IsExported() {
+			d.Field(i).Set(s.Field(i))
+			n++
+		}
+	}
+	return n > 0
+}
 
 // ByName finds a row.
 func ByName(name string) *Indicator {
